@@ -213,7 +213,26 @@ def check_one(cls, position, orderby, L, O, plan_steps, par):
     p0 = program(cls, position, orderby, [])
     p1 = program(cls, position, orderby, plan_steps)
     exec_ok = cls == "sqlite" and position in ("top", "from_sub", "setop_self") and (orderby or (L is None and O is None))
-    return check_pair(cls, p0, p1, L, O, orderby, par, exec_ok, setop=position == "setop_self")
+    out = check_pair(cls, p0, p1, L, O, orderby, par, exec_ok, setop=position == "setop_self")
+    if cls == "sqlite" and position == "setop_operand" and not out:
+        # the paginated operand is one unit of the compound: the engine accepts it, and it contributes rows m+1 .. m+n of the operand
+        try:
+            q1 = prog.build_program(p1)
+            if par:
+                s1, v1 = prog.render(q1, cls, True)
+                rows = db().execute(s1, v1).fetchall()
+            else:
+                s1 = prog.render(q1, cls)
+                rows = db().execute(s1).fetchall()
+            if orderby:
+                m = O or 0
+                part = list(range(1, 11))[m:] if L is None else list(range(1, 11))[m:m + L]
+                want = sorted([(i,) for i in part] + [(1,), (2,), (3,)])
+                if sorted(rows) != want:
+                    out.append(("rows", "%r returned %r, expected (as a multiset) %r" % (s1, rows, want)))
+        except sqlite3.Error as e:
+            out.append(("engine_reject", "%r: %s" % (s1, e)))
+    return out
 
 
 def check_pair(cls, p0, p1, L, O, orderby, par, exec_ok, setop=False):
@@ -235,11 +254,18 @@ def check_pair(cls, p0, p1, L, O, orderby, par, exec_ok, setop=False):
         return [("raises:" + type(e).__name__, repr(e))]
     t0, t1 = lex.lex(s0, cls), lex.lex(s1, cls)
     sp = split_tail(t0, t1)
+    pre = 0
     if sp is None and t1 and t1[0].text == "(" and t0 and t0[0].text != "(":
-        # an un-bracketed set-operation operand gains brackets once it carries clauses of its own (they would end the operand otherwise):
-        # the row-limiting clause must then be the last thing inside those brackets
+        pre = 1
+    elif sp is None and cls == "sqlite" and [t.text for t in t1[:4]] == ["SELECT", "*", "FROM", "("] and [t.text for t in t0[:4]] != ["SELECT", "*", "FROM", "("]:
+        pre = 4  # SQLite has no bracketed operands: the unit is written SELECT * FROM ( ... )
+    if pre:
+        # an un-bracketed set-operation operand becomes one bracketed unit once it carries clauses of its own (they would end the
+        # operand otherwise): the row-limiting clause must then be the last thing inside those brackets
         depth, j = 0, None
         for k, t in enumerate(t1):
+            if k < pre - 1:
+                continue
             if t.kind == "punct" and t.text == "(":
                 depth += 1
             elif t.kind == "punct" and t.text == ")":
@@ -248,9 +274,9 @@ def check_pair(cls, p0, p1, L, O, orderby, par, exec_ok, setop=False):
                     j = k
                     break
         if j is not None:
-            t1b = t1[1:j] + t1[j + 1:]
+            t1b = t1[pre:j] + t1[j + 1:]
             sp2 = split_tail(t0, t1b)
-            if sp2 is not None and sp2[0] + len(sp2[1]) == j - 1:
+            if sp2 is not None and sp2[0] + len(sp2[1]) == j - pre:
                 sp, t1 = sp2, t1b
     if sp is None:
         return [("not_an_insertion", "%r vs %r" % (s1, s0))]
